@@ -1,2 +1,6 @@
 pub mod basic;
+pub mod calc;
+pub mod econ;
+pub mod econ2;
+pub mod rules;
 pub mod util;
